@@ -318,6 +318,40 @@ namespace {
          };
          equivalence(lk, "linkage", +[](const ipr::Linkage* const& a, const ipr::Linkage* const& b) { return *a == *b; },
                      +[](const ipr::Linkage* const& a, const ipr::Linkage* const& b) { return *a != *b; });
+         {
+            // the same spellings asked for, back to back, by ANOTHER live Lexicon: within each Lexicon equality still holds
+            // exactly for equal spellings, whatever route the value came by
+            state("equality of linkages / conventions / logograms / transfers while a second Lexicon asks for the same spellings");
+            ipr::impl::Lexicon other;
+            std::vector<std::pair<const ipr::Linkage*, std::string>> la, lb;
+            std::vector<std::pair<const ipr::Calling_convention*, std::string>> ca, cb;
+            std::vector<std::pair<const ipr::Logogram*, std::string>> ga, gb;
+            std::vector<std::pair<const ipr::Transfer*, std::string>> xa, xb;
+            for (auto w : { u8"Java", u8"Ada", u8"C", u8"Java", u8"fastcall", u8"Ada" }) {
+               const std::string sp = reinterpret_cast<const char*>(w);
+               auto& o1 = other.get_linkage(ipr::util::word_view(w)); auto& m1 = lex.get_linkage(ipr::util::word_view(w));
+               auto& m2 = lex.get_linkage(lex.get_string(w)); auto& o2 = other.get_linkage(other.get_string(w));
+               la.push_back({ &m1, sp }); la.push_back({ &m2, sp }); lb.push_back({ &o1, sp }); lb.push_back({ &o2, sp });
+               auto& oc = other.get_calling_convention(w); auto& mc = lex.get_calling_convention(w); auto& mc2 = lex.get_calling_convention(std::u8string(w));
+               ca.push_back({ &mc, sp }); ca.push_back({ &mc2, sp }); cb.push_back({ &oc, sp }); cb.push_back({ &other.get_calling_convention(w), sp });
+               auto& og = other.get_logogram(other.get_string(w)); auto& mg = lex.get_logogram(lex.get_string(w));
+               ga.push_back({ &mg, sp }); ga.push_back({ &m1.language(), sp }); ga.push_back({ &mc.name(), sp }); gb.push_back({ &og, sp }); gb.push_back({ &o1.language(), sp });
+               auto& ox = other.get_transfer(o1, oc); auto& mx = lex.get_transfer(m1, mc); auto& mx2 = lex.get_transfer(m2, mc2);
+               xa.push_back({ &mx, sp }); xa.push_back({ &mx2, sp }); xb.push_back({ &ox, sp });
+            }
+            auto leq = +[](const ipr::Linkage* const& a, const ipr::Linkage* const& b) { return *a == *b; };
+            auto lne = +[](const ipr::Linkage* const& a, const ipr::Linkage* const& b) { return *a != *b; };
+            equivalence(la, "linkage", leq, lne); equivalence(lb, "linkage", leq, lne);
+            auto ceq = +[](const ipr::Calling_convention* const& a, const ipr::Calling_convention* const& b) { return *a == *b; };
+            auto cne = +[](const ipr::Calling_convention* const& a, const ipr::Calling_convention* const& b) { return *a != *b; };
+            equivalence(ca, "calling-convention", ceq, cne); equivalence(cb, "calling-convention", ceq, cne);
+            auto geq = +[](const ipr::Logogram* const& a, const ipr::Logogram* const& b) { return *a == *b; };
+            auto gne = +[](const ipr::Logogram* const& a, const ipr::Logogram* const& b) { return *a != *b; };
+            equivalence(ga, "logogram", geq, gne); equivalence(gb, "logogram", geq, gne);
+            auto xeq = +[](const ipr::Transfer* const& a, const ipr::Transfer* const& b) { return *a == *b; };
+            auto xne = +[](const ipr::Transfer* const& a, const ipr::Transfer* const& b) { return *a != *b; };
+            equivalence(xa, "transfer", xeq, xne); equivalence(xb, "transfer", xeq, xne);
+         }
          state("equality of calling conventions");
          std::vector<std::pair<const ipr::Calling_convention*, std::string>> cc = {
             { &ipr::impl::cxx_transfer().convention(), "" }, { &lex.get_calling_convention(u8""), "" }, { &lex.get_calling_convention(u8"fastcall"), "fastcall" },
